@@ -99,8 +99,11 @@ func c17StackCase(r *Recorder, eager bool, seed int) {
 				r.Violate("C17/streams-not-derived-from-current-secret", fmt.Sprintf("connection %d runs on streams that are not derived from the identifier the client's ConnData yields", conn), name)
 			}
 		}
+		// what an application may do at any time: ask both ends for their address (logging)
+		_ = st.Srv.Addr()
 		c.Mailbox.Close()
 		s.Mailbox.Close()
+		_ = st.Srv.Addr()
 	}
 	r.Case(name, true, "stack-streams")
 }
@@ -231,6 +234,35 @@ func TestC17(t *testing.T) {
 		}
 		if sids[0] == sids[2] || sids[3] == sids[0] || sids[3] == sids[5] || sids[5] == sids[6] {
 			r.Violate("C17/sid-collision", "different secrets give the same identifier", fields)
+		}
+		// a remote key the application's callback refuses is not adopted: identifier, handshake
+		// pattern and stored key stay what they were
+		{
+			refuse := true
+			live := mailbox.NewConnData(&keychain.PrivKeyECDH{PrivKey: key(k)}, nil, ea, nil,
+				func(*btcec.PublicKey) error {
+					if refuse {
+						return fmt.Errorf("key refused")
+					}
+					return nil
+				}, nil)
+			before, _ := live.SID()
+			patBefore := live.HandshakePattern().Name
+			err := live.SetRemote(key(k + 1).PubKey())
+			after, _ := live.SID()
+			if err == nil || after != before || live.RemoteKey() != nil || live.HandshakePattern().Name != patBefore {
+				r.Violate("C17/refused-key-adopted", fmt.Sprintf("local key %d: the remote-key callback refused key %d (SetRemote returned %v); afterwards SID changed: %v, RemoteKey set: %v, pattern %s -> %s",
+					k, k+1, err, after != before, live.RemoteKey() != nil, patBefore, live.HandshakePattern().Name), map[string]int{"local": k, "remote": k + 1})
+			}
+			refuse = false
+			if err := live.SetRemote(key(k + 1).PubKey()); err == nil {
+				got, _ := live.SID()
+				want, _ := mk(cfg{k, k + 1, ea}).SID()
+				if got != want {
+					r.Violate("C17/stale-sid-after-key-change", "a key accepted after an earlier refusal does not yield the identifier a fresh ConnData derives", map[string]int{"local": k, "remote": k + 1})
+				}
+			}
+			r.Case(fmt.Sprintf("refused-key:%d", round), true, "refused-key")
 		}
 		// one long-lived ConnData through a history of key changes: after every SetRemote the
 		// identifier is the one a fresh ConnData with that remote key derives
